@@ -60,7 +60,7 @@ def main(argv=None):
                     want = json.load(fh)
                 code, ctx = run_property(p, prog, cg, "quick", shared, out=lambda *_: None, write=False)
                 hit = [f for f in ctx.findings if f.rule == want["rule"] and f.construct == want["construct"]
-                       and f.statement == want["statement"]]
+                       and (f.shape == want.get("shape") or f.statement == want["statement"])]
                 if hit:
                     f = hit[0]
                     print("replay: still reported on the current tree")
